@@ -635,6 +635,12 @@ fn spawn_async_ao_list_in_task'''),
         ('plain-operator-strips-tabs', 'brush-parser/src/parser/peg.rs', "                    remove_tabs: false,", "                    remove_tabs: true,"),
         ('backslash-in-the-delimiter-does-not-count-as-quoting', 'brush-parser/src/parser/peg.rs', [("specific_operator(\"<<\") here_tag:here_tag() doc:[_] closing_tag:here_tag() {\n                let requires_expansion = !here_tag.to_str().contains(['\\'', '\"', '\\\\']);", "specific_operator(\"<<\") here_tag:here_tag() doc:[_] closing_tag:here_tag() {\n                let requires_expansion = !here_tag.to_str().contains(['\\'', '\"', '\"']);")]),
     ],
+    'U27e': [
+        ('token-start-read-after-it-was-taken', 'brush-parser/src/tokenizer.rs', "            start: Arc::new(std::mem::take(&mut self.start_position)),\n            end,", "            start: Arc::new({ let _ = std::mem::take(&mut self.start_position); std::mem::take(&mut self.start_position) }),\n            end,"),
+        ('next-token-does-not-restart-at-the-cut', 'brush-parser/src/tokenizer.rs', "        end_position.clone_into(&mut self.start_position);\n", ""),
+        ('operator-flag-left-set', 'brush-parser/src/tokenizer.rs', "        let token = if std::mem::take(&mut self.token_is_operator) {", "        let token = if self.token_is_operator {"),
+        ('operator-and-word-swapped', 'brush-parser/src/tokenizer.rs', "            Token::Operator(std::mem::take(&mut self.token_so_far), token_location)\n        } else {\n            Token::Word(std::mem::take(&mut self.token_so_far), token_location)", "            Token::Word(std::mem::take(&mut self.token_so_far), token_location)\n        } else {\n            Token::Operator(std::mem::take(&mut self.token_so_far), token_location)"),
+    ],
     'U27d': [
         ('here-documents-not-set-aside-for-dollar-paren', 'brush-parser/src/tokenizer.rs', [("        let outer_here_state = std::mem::take(&mut self.cross_state.here_state);\n        let outer_here_tags = std::mem::take(&mut self.cross_state.current_here_tags);\n", ""), ("        self.cross_state.here_state = outer_here_state;\n        self.cross_state.current_here_tags = outer_here_tags;\n\n        state.append_char(", "        state.append_char(")]),
         ('pending-tags-not-put-back-after-dollar-paren', 'brush-parser/src/tokenizer.rs', "        self.cross_state.here_state = outer_here_state;\n        self.cross_state.current_here_tags = outer_here_tags;\n\n        state.append_char(", "        self.cross_state.here_state = outer_here_state;\n        let _ = outer_here_tags;\n\n        state.append_char("),
